@@ -445,11 +445,28 @@ class Confinement:
 
     # ------------------------------------------------------------ statements
     def block(self, stmts, env: Optional[Env], fi) -> Optional[Env]:
-        for s in stmts:
+        for i, s in enumerate(stmts):
             if env is None:
                 return None
+            if isinstance(s, ast.If) and self._is_renaming_if(s) and i + 1 < len(stmts):
+                # `if c: x, y = a, b  else: x, y = b, a` (operand normalisation): the rest of the block is analysed once per
+                # arm -- joining here would forget that x and y are *different* operands in either case
+                outs = []
+                for arm, truth in ((s.body, True), (s.orelse, False)):
+                    e = self.block(arm, self.narrow(s.test, env, truth, fi), fi)
+                    outs.append(self.block(stmts[i + 1:], e, fi) if e is not None else None)
+                return join_env(outs[0], outs[1])
             env = self.stmt(s, env, fi)
         return env
+
+    @staticmethod
+    def _is_renaming_if(s: ast.If) -> bool:
+        def plain(arm):
+            return 0 < len(arm) <= 3 and all(
+                isinstance(x, ast.Assign) and len(x.targets) == 1 and not any(isinstance(c, ast.Call) for c in ast.walk(x.value))
+                and all(isinstance(t, ast.Name) for t in (x.targets[0].elts if isinstance(x.targets[0], (ast.Tuple, ast.List)) else [x.targets[0]]))
+                for x in arm)
+        return plain(s.body) and plain(s.orelse)
 
     def invalidate(self, env: Env, name: str):
         for k in [k for k in env.conf if k != name and (k.startswith(name + ".") or k.startswith(name + "[") or
@@ -521,6 +538,14 @@ class Confinement:
             a = self.block(s.body, et, fi)
             b = self.block(s.orelse, ef, fi)
             return join_env(a, b)
+        if isinstance(s, ast.For) and unroll_items(s, fi.node, fi.params) is not None:
+            # a loop over a literal tuple is the sequence of its iterations (exact)
+            for elt in unroll_items(s, fi.node, fi.params):
+                env = self.stmt(ast.copy_location(ast.Assign(targets=[s.target], value=elt), s), env, fi)
+                env = self.block(s.body, env, fi)
+                if env is None:
+                    return None
+            return self.block(s.orelse, env, fi)
         if isinstance(s, ast.For):
             e0 = env
             for _ in range(3):
@@ -570,6 +595,40 @@ class Confinement:
         if isinstance(e, ast.Name):
             return env.contrib.get(e.id, [])
         return []
+
+
+def unroll_items(s: ast.For, fn_node=None, params=()):
+    """`for T in (e1, ..., ek): body` with a literal tuple / list (directly or through a single-definition local that
+    is only iterated) and no break / continue is equal to k copies of the body: -> [e1, ..., ek], else None"""
+    it = s.iter
+    if isinstance(it, ast.Name) and fn_node is not None:
+        from .astutil import single_defs
+        d = single_defs(fn_node, params).get(it.id)
+        uses = [x for x in ast.walk(fn_node) if isinstance(x, ast.Name) and x.id == it.id and isinstance(x.ctx, ast.Load)]
+        if d is not None and isinstance(d, (ast.Tuple, ast.List)) and len(uses) == 1:
+            it = d
+    if not (isinstance(it, (ast.Tuple, ast.List)) and 0 < len(it.elts) <= 12):
+        return None
+    if any(isinstance(e, ast.Starred) for e in it.elts):
+        return None
+    def own_jump(stmts) -> bool:
+        for b in stmts:
+            if isinstance(b, (ast.Break, ast.Continue)):
+                return True
+            if isinstance(b, (ast.For, ast.While, ast.AsyncFor, ast.FunctionDef, ast.ClassDef)):
+                continue  # jumps inside a nested loop belong to that loop
+            for fld in ("body", "orelse", "finalbody", "handlers"):
+                sub = getattr(b, fld, None)
+                if sub and own_jump([h for h in sub if isinstance(h, ast.stmt)] + [x for h in sub if isinstance(h, ast.ExceptHandler) for x in h.body]):
+                    return True
+        return False
+    if own_jump(s.body):
+        return None
+    return list(it.elts)
+
+
+def unrollable(s: ast.For) -> bool:
+    return unroll_items(s) is not None
 
 
 def handler_functions(ctx) -> Tuple[List[FunctionInfo], List[FunctionInfo], FunctionInfo]:
